@@ -76,6 +76,21 @@ func (g *Gen) funcDef(depth int) []Stmt {
 	for i := range rets {
 		rets[i] = g.exprInt(2)
 	}
+	if nret > 0 && g.R.Chance(35) {
+		// return bare locals that have live neighbours in the following registers: a caller asking
+		// for more values than returned must get nil, not the neighbour
+		g.use("return-bare-locals")
+		names := make([]string, nret+1)
+		vals := make([]Expr, nret+1)
+		for i := range names {
+			names[i] = g.fresh("rv")
+			vals[i] = g.exprInt(1)
+		}
+		body = append(body, &Local{Names: names, Es: vals})
+		for i := range rets {
+			rets[i] = v(names[i])
+		}
+	}
 	if nret > 0 || g.R.Bool() {
 		body = append(body, &Return{Es: rets})
 	}
@@ -341,7 +356,7 @@ func (g *Gen) pcallShape(depth, d int) []Stmt {
 
 func (g *Gen) closureShape(depth, d int) []Stmt {
 	g.use("closure")
-	switch g.R.Pick(20, 20, 15, 15, 15, 15) {
+	switch g.R.Pick(20, 20, 15, 15, 15, 15, 8) {
 	case 0: // counter factory, two independent instances
 		g.use("closure-counter")
 		mk, c1, c2 := g.fresh("mk"), g.fresh("c"), g.fresh("c")
@@ -383,6 +398,15 @@ func (g *Gen) closureShape(depth, d int) []Stmt {
 			local1("b", bin("+", v("a"), num(1))),
 			ret(&Func{Body: []Stmt{ret(&Func{Body: []Stmt{set(v("a"), bin("+", v("a"), num(1))), set(v("b"), bin("*", v("b"), num(2))), ret(v("a"), v("b"))}})}})}}},
 			local1(h, &Call{F: call(outer, g.litInt())}), g.clobber(), emit(call(h)), emit(call(h))}
+	case 6: // the message handler itself fails: still contained, captured locals still closed
+		g.use("closure-after-failing-handler")
+		up, mk := g.fresh("up"), g.fresh("mk")
+		return []Stmt{&Local{Names: []string{up}},
+			&LocalFunc{X: mk, F: &Func{Body: []Stmt{local1("x", g.litInt()),
+				set(v(up), &Func{Body: []Stmt{set(v("x"), bin("+", v("x"), num(1))), ret(v("x"))}}),
+				&CallS{E: call("error", str("boom"))}}}},
+			emit(&Paren{E: call("xpcall", v(mk), &Func{Params: []string{"m"}, Body: []Stmt{&CallS{E: call("error", str("again"))}}})}),
+			g.clobber(), emit(call(up), call(up))}
 	default: // closure survives an error caught by pcall
 		g.use("closure-after-error")
 		up, mk := g.fresh("up"), g.fresh("mk")
@@ -415,7 +439,7 @@ func (g *Gen) clobber() Stmt {
 func (g *Gen) metaShape(depth, d int) []Stmt {
 	g.use("meta")
 	o, mt := g.fresh("o"), g.fresh("mt")
-	switch g.R.Pick(25, 25, 20, 15, 15) {
+	switch g.R.Pick(25, 25, 20, 15, 15, 12, 12, 10) {
 	case 0: // __index function/table and __newindex
 		g.use("meta-index")
 		base := g.fresh("base")
@@ -453,6 +477,24 @@ func (g *Gen) metaShape(depth, d int) []Stmt {
 			{Kind: 1, Name: "__tostring", E: &Func{Params: []string{"a"}, Body: []Stmt{ret(str("obj!"))}}}}}),
 			local1(o, call("setmetatable", &Table{}, v(mt))),
 			emit(&Call{F: v(o), Args: []Expr{num(1), num(2)}}), emit(&Un{Op: "-", A: v(o)}, call("tostring", v(o)))}
+	case 5: // __newindex chain through tables: a key present in an intermediate table is raw-assigned there
+		g.use("meta-newindex-chain")
+		mid, last := g.fresh("mid"), g.fresh("last")
+		return []Stmt{local1(last, &Table{}),
+			local1(mid, call("setmetatable", &Table{Items: []TItem{{Kind: 1, Name: "held", E: g.litInt()}}},
+				&Table{Items: []TItem{{Kind: 1, Name: "__newindex", E: []Expr{v(last), &Func{Params: []string{"t", "k", "x"}, Body: []Stmt{emit(str("mid-newindex"), v("k"), v("x"))}}}[g.R.Intn(2)]}}})),
+			local1(o, call("setmetatable", &Table{}, &Table{Items: []TItem{{Kind: 1, Name: "__newindex", E: v(mid)}}})),
+			set(idx(v(o), "held"), g.litInt()), set(idx(v(o), "fresh"), g.litInt()),
+			emit(call("rawget", v(o), str("held")), call("rawget", v(mid), str("held")), call("rawget", v(mid), str("fresh")), call("rawget", v(last), str("fresh")), call("rawget", v(last), str("held")))}
+	case 6: // the same object on both sides of a comparison still dispatches
+		g.use("meta-compare-same-object")
+		items := []TItem{{Kind: 1, Name: "__lt", E: &Func{Params: []string{"a", "b"}, Body: []Stmt{emit(str("lt")), ret(&False{})}}}}
+		if g.R.Bool() {
+			items = append(items, TItem{Kind: 1, Name: "__le", E: &Func{Params: []string{"a", "b"}, Body: []Stmt{emit(str("le")), ret(&False{})}}})
+		}
+		return []Stmt{local1(mt, &Table{Items: items}), local1(o, call("setmetatable", &Table{}, v(mt))),
+			emit(bin("<=", v(o), v(o)), bin(">=", v(o), v(o)), bin("<", v(o), v(o)), bin("==", v(o), v(o))),
+			emit(call("pcall", &Func{Body: []Stmt{local1("plain", &Table{}), ret(bin("<=", v("plain"), v("plain")))}}))}
 	default: // __metatable protection, getmetatable
 		g.use("meta-protect")
 		return []Stmt{local1(mt, &Table{Items: []TItem{{Kind: 1, Name: "__metatable", E: str("locked")}}}),
